@@ -150,9 +150,19 @@ func c14Stream(w *W) {
 	})
 	s := w.Sock(kind)
 	attached := 0
+	// now and then the application's hook on the dialling side takes its time
+	// (longer than the reconnect interval and than the peer keeps the
+	// connection): a connection lost while the hook is still running must be
+	// redialled like any other
+	slowHook := w.Choose(simrt.SShape, 4) == 0
+	slowOn := []mangos.PipeEvent{mangos.PipeEventAttaching, mangos.PipeEventAttached}[w.Choose(simrt.SShape, 2)]
+	w.SetShape("slow_dialer_hook", slowHook)
 	s.SetPipeEventHook(func(ev mangos.PipeEvent, p mangos.Pipe) {
 		if ev == mangos.PipeEventAttached {
 			attached++
+		}
+		if slowHook && ev == slowOn {
+			simrt.Sleep(100*time.Millisecond + 3*r)
 		}
 	})
 	d, err := s.NewDialer(daddr, w.EpOpts(daddr, false, map[string]interface{}{
@@ -174,6 +184,13 @@ func c14Stream(w *W) {
 	// every scripted ending must be followed by a new attempt within the cap
 	// (x1.5 growth slack, 10ms for the handshake round trips)
 	bound := gapCap*2 + 10*time.Millisecond
+	hookTime := time.Duration(0)
+	if slowHook {
+		// (the library cannot act on a pipe while the application's callback
+		// for it has not returned: that much later is still "at once")
+		hookTime = 100*time.Millisecond + 3*r
+		bound += hookTime
+	}
 	deadline := w.Now()
 	for i := 0; i <= len(plan) && !w.Failed(); i++ {
 		// wait for attempt i
@@ -203,7 +220,7 @@ func c14Stream(w *W) {
 			deadline = atts[i].overAt
 		}
 	}
-	w.Sleep(5 * time.Millisecond)
+	w.Sleep(5*time.Millisecond + hookTime)
 	w.Settle()
 	if !w.Failed() {
 		oks := 1
